@@ -838,6 +838,34 @@ func genC18(r *rand.Rand, tier string, env *Env) []Case {
 		{"a/x/inner", "innerroot", "innerroot"}, {"a/x/inner/deep/er", "innerroot", ""}, {"a/x/inner/regex-assembly/include", "innerroot", ""}, {"a/x", "outerroot", ""},
 		{"b/plain/dir", "", ""}, {"b", "", ""},
 	}
+	// the search itself, model vs code: start directories 1..5 levels deep, roots at any subset of the levels (and in
+	// side branches, which never count)
+	nRoot := 40
+	if tier == "thorough" {
+		nRoot = 600
+	}
+	for i := 0; i < nRoot; i++ {
+		comps := []string{"a", "b", "regex-assembly", "rules", "x.y", "in ner", "crs", "regex-assembly-old", "c"}
+		depth := 1 + r.Intn(5)
+		var path []string
+		for k := 0; k < depth; k++ {
+			path = append(path, pick(r, comps))
+		}
+		args := [][]byte{[]byte(strings.Join(path, "/"))}
+		for k := 1; k <= depth; k++ {
+			if chance(r, 0.3) {
+				args = append(args, []byte(strings.Join(path[:k], "/")))
+			}
+		}
+		if chance(r, 0.4) {
+			// a root in a side branch or below the start directory
+			args = append(args, []byte(strings.Join(append(append([]string{}, path[:r.Intn(depth+1)]...), "side"), "/")))
+		}
+		if chance(r, 0.2) {
+			args = append(args, []byte(strings.Join(append(append([]string{}, path...), "below"), "/")))
+		}
+		cases = append(cases, Case{Kind: "root-search", Ops: []Op{{"root.find", args}}})
+	}
 	for _, rc := range rcs {
 		cases = append(cases, Case{Kind: "root-resolution", Oracles: []Op{{"c18.root", [][]byte{encodeTree(layout), []byte(rc.start), []byte(rc.want), []byte(rc.cwdWant)}}}})
 	}
